@@ -40,17 +40,22 @@ AngMul(j) == IF j = 0 THEN << R(1), R(0) >>
 
 \* metrics of the Gaussian family: M = Q diag(1 / k_i^2) Q'  with rational orthogonal Q and integer k_i
 Rot3 == << << <<3, 5>>, <<-4, 5>>, R(0) >>, << <<4, 5>>, <<3, 5>>, R(0) >>, << R(0), R(0), R(1) >> >>
-GQ(metric) == IF metric = "rotk" THEN Rot3 ELSE MIdentity(N)
+\* "blockk": a rotation in the plane of coordinates 2, 3 (the metric is block diagonal: a 1 x 1 diagonal block and a
+\* dense 2 x 2 block)
+RotB == << << R(1), R(0), R(0) >>, << R(0), <<3, 5>>, <<-4, 5>> >>, << R(0), <<4, 5>>, <<3, 5>> >> >>
+GQ(metric) == IF metric = "rotk" THEN Rot3 ELSE IF metric = "blockk" THEN RotB ELSE MIdentity(N)
 \* frequencies k_i (rationals) and the phase advance of coordinate i per unit of the time index j, in multiples of
 \* theta.  For "diaghalf" = diag(4, 1, 4) the frequencies are 1/2, 1, 1/2 and the time unit is 2 theta (phases 1, 2, 1
 \* per unit): non-commensurate with a reduction of the time modulo 2 pi.
 GK(metric) == CASE metric = "identity" -> << R(1), R(1), R(1) >>
                 [] metric = "diagk2" -> << R(1), R(2), R(1) >>
                 [] metric = "diaghalf" -> << <<1, 2>>, R(1), <<1, 2>> >>
+                [] metric = "blockk" -> << R(2), R(1), R(2) >>
                 [] OTHER -> << R(1), R(2), R(3) >>
 GPh(metric) == CASE metric = "identity" -> <<1, 1, 1>>
                  [] metric = "diagk2" -> <<1, 2, 1>>
                  [] metric = "diaghalf" -> <<1, 2, 1>>
+                 [] metric = "blockk" -> <<2, 1, 2>>
                  [] OTHER -> <<1, 2, 3>>
 GMetric(metric) == MMul(GQ(metric), MMul(MDiag([i \in 1..N |-> QDiv(R(1), QMul(GK(metric)[i], GK(metric)[i]))]), MTranspose(GQ(metric))))
 
